@@ -63,6 +63,10 @@ def uni_consts(n, procs, kind, checks, relax=False):
     return {"N": n, "Procs": list(range(procs)), "RelaxEmpty": relax, "HeldTakeCap": kind in UNI_ZC, "Checks": ['"%s"' % x for x in checks]}
 
 
+def multi_consts(n, procs, checks, nlis=6):
+    return {"N": n, "Procs": list(range(procs)), "Ls": list(range(nlis)), "Checks": ['"%s"' % x for x in checks]}
+
+
 def kf_match(kind, inv, entry_points):
     """the open known finding that explains a violation of `inv` on channel `kind`, or None"""
     for k in load_known_findings():
